@@ -10,7 +10,7 @@ CONSTANTS
   MaxScopes = 2
   VNames = {"a", ".", ".a", "a.", "a.b", ".."}
   TNames = {"int64", ".a", "a.", "."}
-  DefVals = {1, 3, 5}
+  DefVals = {1, 3, 90}
   SetVals = {2}
   TypeVals = {1}
   PathNames = {"a", ".a"}
